@@ -516,7 +516,8 @@ struct Value {
         // Bech32(m) decoding
         int version = bech[0]; // The first 5 bit symbol is the witness version (0-16)
         // data = r.second;
-        printf("(bech32%s HRP = %s)\n", result.encoding == bech32::Encoding::BECH32M ? "m" : "", result.hrp.c_str());
+        // (a note for the user, not part of the value: stdout carries results only, e.g. the final stack of a piped run)
+        fprintf(stderr, "(bech32%s HRP = %s)\n", result.encoding == bech32::Encoding::BECH32M ? "m" : "", result.hrp.c_str());
         type = T_DATA;
         data.clear();
         // The rest of the symbols are converted witness program bytes.
